@@ -402,7 +402,7 @@ Proof.
       inversion E; subst. apply inv_set_pc, inv_set_backfill; [|exact H].
       apply andb_prop in Ej. destruct Ej as [_ Ej]. apply Nat.leb_le. exact Ej.
     + destruct (j =? length (txs data s)) eqn:Ej; [|discriminate]. apply Nat.eqb_eq in Ej.
-      inversion E; subst. apply inv_set_pc, inv_reset_trunc, inv_set_backfill; [lia|exact H].
+      inversion E; subst. apply inv_set_flag, inv_set_pc, inv_reset_trunc, inv_set_backfill; [lia|exact H].
   - destruct (pc data s); try discriminate. destruct (ls_mark data s); [discriminate|].
     inversion E; subst. apply inv_set_openmark, inv_set_mark. exact H.
   - destruct (pc data s); try discriminate. destruct (ls_mark data s); [|discriminate].
@@ -439,6 +439,12 @@ Proof.
     destruct (do_sync data lock freshrule reachrule (strict_ss data s) k) eqn:Ed; [|discriminate].
     inversion E; subst. apply inv_set_pc. unfold merge_reached. apply inv_set_ss.
     eapply inv_do_sync; [|exact Ed]. unfold strict_ss. apply inv_set_ss. exact H.
+  - (* LsCkptBusy *)
+    destruct (pc data s) as [| | | | |m0 hg0 pre0| | | | | | | | |]; try discriminate.
+    destruct m0; try discriminate. destruct (ls_mark data s); [discriminate|].
+    destruct ((backfilled data s <=? j) && (j <=? length (txs data s))) eqn:Ej; [|discriminate].
+    inversion E; subst. apply inv_set_flag, inv_set_pc, inv_set_backfill; [|exact H].
+    apply andb_prop in Ej. destruct Ej as [_ Ej]. apply Nat.leb_le. exact Ej.
   - (* LsFail *)
     destruct (in_call (pc data s) && opened data s); [|discriminate]. inversion E; subst.
     apply inv_fail_st. exact H.
